@@ -100,6 +100,29 @@ def const_arr(n, val, k):
     return Arr(n, lambda i: t, k)
 
 
+def _is_pat(t):
+    return z3.is_app(t) and t.num_args() > 0 and \
+        t.decl().kind() == z3.Z3_OP_UNINTERPRETED
+
+
+def QForAll(vs, body, patterns=None):
+    """ForAll with explicit patterns only when they are legal triggers
+    (applications of uninterpreted functions); otherwise let z3 choose."""
+    if patterns:
+        ok = True
+        for p in patterns:
+            terms = p.children() if isinstance(p, z3.PatternRef) else [p]
+            for t in terms:
+                if not _is_pat(t):
+                    ok = False
+        if ok:
+            try:
+                return z3.ForAll(vs, body, patterns=patterns)
+            except z3.Z3Exception:
+                pass
+    return z3.ForAll(vs, body)
+
+
 def qi(name='i'):
     return z3.Int(uid(name + '!q'))
 
@@ -107,7 +130,7 @@ def qi(name='i'):
 def forall_idx(a_n, body, name='i'):
     """forall i. 0 <= i < a_n -> body(i)"""
     i = qi(name)
-    return z3.ForAll([i], z3.Implies(z3.And(i >= 0, i < a_n), body(i)))
+    return QForAll([i], z3.Implies(z3.And(i >= 0, i < a_n), body(i)))
 
 
 def exists_idx(a_n, body, name='i'):
@@ -140,21 +163,21 @@ class MaskInfo:
         ax = [c >= 0, c <= n]
         for (cc, s, r, pos) in ((c, sel, rank, True), (nc, nsel, nrank, False)):
             lit = (lambda t: m.at(t)) if pos else (lambda t: z3.Not(m.at(t)))
-            ax.append(z3.ForAll([j], z3.Implies(
+            ax.append(QForAll([j], z3.Implies(
                 z3.And(j >= 0, j < cc),
                 z3.And(s(j) >= 0, s(j) < n, lit(s(j)), r(s(j)) == j)),
                 patterns=[s(j)]))
-            ax.append(z3.ForAll([i], z3.Implies(
+            ax.append(QForAll([i], z3.Implies(
                 z3.And(i >= 0, i < n, lit(i)),
                 z3.And(r(i) >= 0, r(i) < cc, s(r(i)) == i)),
                 patterns=[r(i)]))
-            ax.append(z3.ForAll([j, k], z3.Implies(
+            ax.append(QForAll([j, k], z3.Implies(
                 z3.And(j >= 0, j < k, k < cc), s(j) < s(k)),
                 patterns=[z3.MultiPattern(s(j), s(k))]))
         # all-true / all-false characterisations
-        ax.append(z3.ForAll([i], z3.Implies(
+        ax.append(QForAll([i], z3.Implies(
             z3.And(i >= 0, i < n, c == n), m.at(i))))
-        ax.append(z3.ForAll([i], z3.Implies(
+        ax.append(QForAll([i], z3.Implies(
             z3.And(i >= 0, i < n, c == 0), z3.Not(m.at(i)))))
         ax.append(z3.Implies(forall_idx(n, lambda t: m.at(t)), c == n))
         ax.append(z3.Implies(forall_idx(n, lambda t: z3.Not(m.at(t))), c == 0))
@@ -167,7 +190,8 @@ def mask_info(st, m):
         raise OutsideSubset('mask of kind ' + m.k)
     # complement of a mask shares the info object
     if isinstance(m.tag, tuple) and m.tag[0] == 'not':
-        return mask_info(st, m.tag[1]), False
+        info, pos = mask_info(st, m.tag[1])
+        return info, not pos
     cache = st.ghost.setdefault('maskinfo', {})
     key = id(m)
     if key not in cache:
@@ -238,14 +262,25 @@ def assign_idx_scalar(st, a, idx, v, need):
     # hit(i) <-> exists j. idx[j] == i  (negative indices normalised)
     norm = lambda x: z3.If(x < 0, x + a.n, x)
     wit = fresh_fn(['int'], 'int', 'hitw')
-    st.assume(z3.ForAll([j], z3.Implies(z3.And(j >= 0, j < idx.n),
+    st.assume(QForAll([j], z3.Implies(z3.And(j >= 0, j < idx.n),
                                         hit(norm(idx.at(j)))),
                         patterns=[idx.at(j)]))
-    st.assume(z3.ForAll([i], z3.Implies(
+    st.assume(QForAll([i], z3.Implies(
         z3.And(i >= 0, i < a.n, hit(i)),
         z3.And(wit(i) >= 0, wit(i) < idx.n, norm(idx.at(wit(i))) == i)),
         patterns=[hit(i)]))
-    return Arr(a.n, lambda i: z3.If(hit(i), t, a.at(i)), a.k), hit
+    new = Arr(a.n, lambda i: z3.If(hit(i), t, a.at(i)), a.k)
+    if a.k == 'bool' and v is True:
+        # counting fact: setting len(idx) distinct, previously-False positions
+        # raises the number of True entries by exactly len(idx)
+        ca, cn = count(st, a), count(st, new)
+        j, k = qi('j'), qi('k')
+        distinct = QForAll([j, k], z3.Implies(
+            z3.And(j >= 0, j < k, k < idx.n), idx.at(j) != idx.at(k)))
+        were_false = forall_idx(idx.n, lambda j: z3.Not(a.at(norm(idx.at(j)))))
+        st.assume(z3.Implies(z3.And(distinct, were_false), cn == ca + idx.n))
+        st.assume(z3.And(cn >= ca, cn <= ca + idx.n))
+    return new, hit
 
 
 def gather(st, a, idx, need):
@@ -339,10 +374,10 @@ def permutation(st, n, hint='perm'):
     p = fresh_fn(['int'], 'int', hint)
     q = fresh_fn(['int'], 'int', hint + '_inv')
     i = qi('i')
-    st.assume(z3.ForAll([i], z3.Implies(
+    st.assume(QForAll([i], z3.Implies(
         z3.And(i >= 0, i < n), z3.And(p(i) >= 0, p(i) < n, q(p(i)) == i)),
         patterns=[p(i)]))
-    st.assume(z3.ForAll([i], z3.Implies(
+    st.assume(QForAll([i], z3.Implies(
         z3.And(i >= 0, i < n), z3.And(q(i) >= 0, q(i) < n, p(q(i)) == i)),
         patterns=[q(i)]))
     return p, q
@@ -394,16 +429,16 @@ class ConcatInfo:
         st.assume(off(0) == 0)
         st.assume(off(L.n) == tot)
         st.assume(tot >= 0)
-        st.assume(z3.ForAll([i], z3.Implies(
+        st.assume(QForAll([i], z3.Implies(
             z3.And(i >= 0, i < L.n), off(i + 1) == off(i) + L.alen(i)),
             patterns=[off(i)]))
-        st.assume(z3.ForAll([j], z3.Implies(
+        st.assume(QForAll([j], z3.Implies(
             z3.And(j >= 0, j < tot),
             z3.And(src(j) >= 0, src(j) < L.n, off(src(j)) <= j,
                    j < off(src(j)) + L.alen(src(j)))), patterns=[src(j)]))
         # position (i,k) of the list lands at off(i)+k
         k = qi('k')
-        st.assume(z3.ForAll([i, k], z3.Implies(
+        st.assume(QForAll([i, k], z3.Implies(
             z3.And(i >= 0, i < L.n, k >= 0, k < L.alen(i)),
             z3.And(off(i) + k < tot, src(off(i) + k) == i)),
             patterns=[src(off(i) + k)]))
